@@ -19,5 +19,12 @@ OPlans(c) ==
     [] c = "tile"   -> {<< <<2>> >>}
 ONoBar(c) == {FALSE}        \* @nobarrier means nothing to the OpenMP translation
 OWraps(c) == IF c = "shared" THEN {"none", "ifo"} ELSE {"none"}
+OHeadsQ(c) == {h \in OHeads(c) : h.O = <<3>>}
+OPlansQ(c) ==
+  CASE c = "basic"  -> {<< <<2>> >>, << <<1>>, <<1>> >>}
+    [] c = "excl"   -> {<< <<2, 1>> >>}
+    [] c = "shared" -> {<< <<1, 1>> >>}
+    [] c = "atomic" -> {<< <<2>> >>, << <<1>>, <<1>> >>}
+    [] OTHER        -> OPlans(c)
 OClassesQuick == {"basic", "excl", "shared", "atomic"}
 =============================================================================
